@@ -1080,7 +1080,7 @@ public:
                     break;
                 case csv_parse_state::escaped_value: 
                     {
-                        if (curr_char == quote_char_)
+                        if (curr_char == quote_char_ || (curr_char == quote_escape_char_ && quote_escape_char_ != quote_char_))
                         {
                             buffer_.push_back(static_cast<CharT>(curr_char));
                             state_ = csv_parse_state::quoted_string;
@@ -1382,15 +1382,19 @@ public:
                             break;
                         case ' ':
                         case '\t':
-                            if (!trim_leading_)
+                            if (curr_char != field_delimiter_) // a blank that is the field delimiter starts an empty first field
                             {
-                                buffer_.push_back(static_cast<CharT>(curr_char));
-                                begin_record(local_visitor, ec);
-                                state_ = csv_parse_state::unquoted_string;
+                                if (!trim_leading_)
+                                {
+                                    buffer_.push_back(static_cast<CharT>(curr_char));
+                                    begin_record(local_visitor, ec);
+                                    state_ = csv_parse_state::unquoted_string;
+                                }
+                                ++column_;
+                                ++input_ptr_;
+                                break;
                             }
-                            ++column_;
-                            ++input_ptr_;
-                            break;
+                            JSONCONS_FALLTHROUGH;
                         default:
                             begin_record(local_visitor, ec);
                             if (curr_char == quote_char_)
